@@ -150,6 +150,33 @@ def generate() -> str:
            and ast.dump(n.test) == _dump("self._decompressor.eof and self._decompressor.unused_data")]
     if len(mem) != 1:
         raise TranslatorError("decompress_sync: multi-member test not found")
+    # db20ae1: mid_stream.  `fed = bool(data) or bool(self._decompressor.unconsumed_tail)` after the pending merge and
+    # before the decompress call; `if fed or self.mid_stream: self.mid_stream = not self._decompressor.eof` after the
+    # members walk / _last_empty and before the gzip reset; __init__ starts with mid_stream = False.
+    top = ds.body
+    def _idx(pred, what):
+        hits = [i for i, n in enumerate(top) if pred(n)]
+        if len(hits) != 1:
+            raise TranslatorError(f"decompress_sync: {what} not found exactly once at top level")
+        return hits[0]
+    i_fed = _idx(lambda n: isinstance(n, ast.Assign) and len(n.targets) == 1 and ast.unparse(n.targets[0]) == "fed"
+                 and ast.dump(n.value) == _dump("bool(data) or bool(self._decompressor.unconsumed_tail)"), "`fed = bool(data) or bool(unconsumed_tail)`")
+    i_pend = _idx(lambda n: isinstance(n, ast.If) and ast.dump(n.test) == _dump("self._pending_unused_data is not None"), "pending merge")
+    i_dec = _idx(lambda n: isinstance(n, ast.Assign) and isinstance(n.value, ast.Call) and ast.dump(n.value.func) == _dump("self._decompressor.decompress"), "decompress call")
+    i_mem = top.index(mem[0]) if mem[0] in top else -1
+    i_gz = top.index(gz[0]) if gz[0] in top else -1
+    i_mid = _idx(lambda n: isinstance(n, ast.If) and ast.dump(n.test) == _dump("fed or self.mid_stream"), "`if fed or self.mid_stream`")
+    midif = top[i_mid]
+    if not (len(midif.body) == 1 and not midif.orelse and isinstance(midif.body[0], ast.Assign)
+            and ast.unparse(midif.body[0]) == "self.mid_stream = not self._decompressor.eof"):
+        raise TranslatorError("decompress_sync: mid_stream update is not `self.mid_stream = not self._decompressor.eof`")
+    if not (0 <= i_pend < i_fed < i_dec < i_mem < i_mid < i_gz):
+        raise TranslatorError("decompress_sync: order is not pending merge, fed, decompress, members, mid_stream, gzip reset")
+    if [ast.unparse(n) for n in ast.walk(ds) if isinstance(n, (ast.Assign, ast.AugAssign)) and "mid_stream" in ast.unparse(n.targets[0] if isinstance(n, ast.Assign) else n.target)] != ["self.mid_stream = not self._decompressor.eof"]:
+        raise TranslatorError("decompress_sync: mid_stream is assigned elsewhere")
+    zi = core.find_function(CU, "__init__", cls="ZLibDecompressor")
+    if [ast.unparse(v) for v in _self_assigns(zi, "mid_stream")] != ["False"]:
+        raise TranslatorError("ZLibDecompressor.__init__: mid_stream does not start False")
     da = core.find_function(CU, "data_available", cls="ZLibDecompressor")
     ret = _one([n for n in ast.walk(da) if isinstance(n, ast.Return)], "data_available return")
     if ast.dump(ret.value) != _dump("bool(self._decompressor.unconsumed_tail) or not self._last_empty or self._pending_unused_data is not None"):
@@ -186,6 +213,22 @@ def generate() -> str:
     if mask + 1 & mask:
         raise TranslatorError("sniff mask is not 2^k-1")
     out.append(f"Definition dg_sniff_raw (b0 : N) : bool := negb ((b0 mod {mask + 1}) =? {val}).")
+    # DeflateBuffer.feed_eof: `if self.size > 0:` holds exactly the deflate-eof test and the mid_stream test (db20ae1),
+    # each raising ContentEncodingError, and the method ends with self.out.feed_eof()
+    dfe = core.find_function(HP, "feed_eof", cls="DeflateBuffer")
+    szs = [n for n in dfe.body if isinstance(n, ast.If) and ast.dump(n.test) == _dump("self.size > 0")]
+    if len(szs) != 1 or szs[0].orelse:
+        raise TranslatorError("DeflateBuffer.feed_eof: `if self.size > 0:` not found")
+    inner = [n for n in szs[0].body if not (isinstance(n, ast.Expr) and isinstance(n.value, ast.Constant))]
+    tests = [ast.unparse(n.test) if isinstance(n, ast.If) else "?" for n in inner]
+    if tests != ["self.encoding == 'deflate' and (not self.decompressor.eof)", "self.decompressor.mid_stream"]:
+        raise TranslatorError(f"DeflateBuffer.feed_eof: stream-end tests are {tests}, expected the deflate eof test then mid_stream")
+    for n in inner:
+        if n.orelse or len(n.body) != 1 or not isinstance(n.body[0], ast.Raise) or not isinstance(n.body[0].exc, ast.Call) \
+                or ast.unparse(n.body[0].exc.func) != "ContentEncodingError":
+            raise TranslatorError("DeflateBuffer.feed_eof: a stream-end test does not raise ContentEncodingError")
+    if ast.unparse(dfe.body[-1]) != "self.out.feed_eof()" or dfe.body.index(szs[0]) != len(dfe.body) - 2:
+        raise TranslatorError("DeflateBuffer.feed_eof: does not end with the size test followed by self.out.feed_eof()")
     init = core.find_function(HP, "__init__", cls="HttpPayloadParser")
     dbc = [n for n in ast.walk(init) if isinstance(n, ast.Call) and isinstance(n.func, ast.Name) and n.func.id == "DeflateBuffer"]
     if len(dbc) != 1 or [k.arg for k in dbc[0].keywords] != ["max_decompress_size"] or ast.dump(dbc[0].keywords[0].value) != _dump("limit"):
